@@ -54,9 +54,15 @@ func vScenarioC17(rc *runCtx) {
 		}
 		rc.res.Scenario["relay_connect_delay"] = o.relayConnectDelay.String()
 	}
+	if cfg.relays > 0 && tp.Bool("c17.relayconndead", 250) {
+		// the relays' own connectors towards the next machine do not work: each relay finds that out before it
+		// answers whoever connected to it, so the client falls back in-band
+		o.relayConnDead = true
+		rc.fault("relay-connector-dead")
+	}
 	x := newXferWorld(rc, o)
 	// connector outcome for the genuine client
-	outcome := []string{"ok", "refuse", "late", "dead", "no-listener", "hang"}[tp.Pick("c17.connector", 5, 1, 1, 1, 1, 1)]
+	outcome := []string{"ok", "refuse", "late", "dead", "no-listener", "hang", "slow-answer"}[tp.Pick("c17.connector", 5, 1, 1, 1, 1, 1, 1)]
 	if outcome == "no-listener" {
 		o.noListen = true
 	}
@@ -77,6 +83,14 @@ func vScenarioC17(rc *runCtx) {
 			c := genuine(port)
 			if c != nil {
 				c.Close()
+			}
+			return c
+		case "slow-answer":
+			// the connection is there at once, but what the other end says on it takes longer than the grace
+			// period to arrive (a slow port forward): the other end has adopted it, this end gives it up
+			c := genuine(port)
+			if vc, ok := c.(*verifsim.Conn); ok && vc != nil {
+				vc.R.StallUntil = rc.w.Now() + time.Duration(1300+tp.Draw("c17.slowanswer", 2500))*time.Millisecond
 			}
 			return c
 		}
@@ -276,6 +290,26 @@ func vScenarioC17(rc *runCtx) {
 	if (outcome == "refuse" || outcome == "no-listener" || outcome == "dead") && rep.tunnelUsed && cfg.relays == 0 {
 		rc.violate("adoption", "C17:tunnel-without-connection", "the client's connector outcome was %q but the transfer claims to have used a tunnel", outcome)
 		return
+	}
+	// a transfer that runs in-band (the client said so in its ACT) is configured like one without any tunnel: binary
+	// mode only if the server was asked for it, and then with its escape table
+	{
+		upSent, _, _ := x.up[0].Snapshot()
+		if x.markUp <= len(upSent) {
+			upSent = upSent[x.markUp:]
+		}
+		if m := vFindMsg(vParseWire(upSent, false), "ACT"); m != nil && rep.cfg != nil {
+			if a, err := vDecodeJSON(m.Payload); err == nil {
+				tun, _ := a["tunnel"].(bool)
+				bin, _ := rep.cfg["binary"].(bool)
+				esc := rep.cfg["escape_chars"]
+				// (only what the user sends upwards is escaped: tsz announces no table)
+				if !tun && bin && (!cfg.binary || (esc == nil && cfg.upload)) {
+					rc.violate("fallback", "C17:in-band-configured-as-tunnel", "connector=%s: the client announced an in-band transfer (no tunnel) but the server configured it like a tunnel transfer: binary=%v, escape table %v, although it was started with %q; ACT %v; CFG %v", outcome, bin, esc, strings.Join(o.flags, " "), a, rep.cfg)
+					return
+				}
+			}
+		}
 	}
 	// attackers: no answer, connection closed (a connection made in the last instant of the transfer gets the
 	// time it takes the accept loop to look at it)
